@@ -36,7 +36,7 @@ from unittest import mock
 import core
 from props import c17
 
-READY = False
+READY = True
 MANIFEST = dict(
     technique='Lean 4 theorems over the transcribed try/except skeleton of the request path (stage outcomes as parameters, all '
               'exception classes) and over the body readers; generated table of XML parser construction sites; exhaustive '
@@ -213,6 +213,25 @@ def _loop_client_class():
     return LoopSoapClient
 
 
+class Fingerprint(tuple):
+    """state fingerprint; two fingerprints are equal when they differ at most in subscriptions whose lifetime has run out or
+    is about to (subscription housekeeping removes those on its own, whatever request is being handled)"""
+    def __eq__(self, other):
+        if tuple(self[:4]) != tuple(other[:4]):
+            return False
+        now = time.monotonic()
+        for sub in set(self[4]) ^ set(other[4]):
+            expires_at = sub[5] + sub[4]     # _started + _expire_seconds (monotonic clock)
+            if expires_at > now + 1.5:
+                return False
+        return True
+
+    def __ne__(self, other):
+        return not self.__eq__(other)
+
+    __hash__ = tuple.__hash__
+
+
 class Session:
     """provider + consumer of the real library wired together without sockets"""
     P_NETLOC, C_NETLOC = '127.0.0.1:50001', '127.0.0.1:50002'
@@ -327,7 +346,7 @@ class Session:
             for s in mgr._subscriptions.objects:
                 subs.append((name, s.path_suffix, s.notify_to_address, s.end_to_address, s._expire_seconds, s._started, s._is_closed,
                              s.unsubscribed_at))
-        return head, st, cs, dsc, tuple(sorted(subs, key=repr))
+        return Fingerprint((head, st, cs, dsc, tuple(sorted(subs, key=repr))))
 
     def full_dump(self):
         from lxml import etree
@@ -611,6 +630,15 @@ def injection_post(ctx, B, classes):
         B.add(line, got, 'doPost == MessageConverterMiddleware.do_post (injected stage outcomes)', case, names=by_name)
     by_name = {c[2]: c[0] for c in classes}
     one({})
+    # the negative witness of Properties/C13.lean (doPost_total_full_fails) replayed on the implementation
+    ve = next(c for c in classes if c[0] == 'ValueError')
+    got, _ = run_do_post({'read1': ve, 'serFault': ve})
+    if got.startswith('escape'):
+        ctx.fail('do_post:reply-path-unguarded', f'unreadable request and serialize() of the fault message raises: {got} leaves do_post '
+                 '(do_POST answers 500 text/plain)', {'kind': 'inject-do_post', 'stages': {'read1': 'ValueError', 'serFault': 'ValueError'},
+                                                      'witness': True})
+    else:
+        ctx.notes['negative_witness'] = 'doPost_total_full_fails no longer reproduces on the implementation: ' + got
     for st in POST_STAGES:                        # every class at every stage
         for c in classes:
             one({st: c})
@@ -1018,7 +1046,7 @@ def mutation_stream(ctx, sess):
         m = re.search(rb'Action[^>]*>([^<]*)<', r['body'])
         by_type.setdefault((m.group(1) if m else b'?', r['path'].split('/')[-1]), r)
     types_ = list(by_type.values())
-    n = ctx.n(1100, 14000)
+    n = ctx.n(1100, 10000)
     sample_every = 10 if ctx.tier == 'quick' else 6
     for i in range(n):
         rec = types_[i % len(types_)] if i < 4 * len(types_) else rng.choice(pool)
@@ -1029,7 +1057,7 @@ def mutation_stream(ctx, sess):
     # consumer endpoint: notifications the provider really sent, mutated
     pooln = sess.notifications
     if pooln:
-        for i in range(ctx.n(400, 5000)):
+        for i in range(ctx.n(400, 3500)):
             rec = rng.choice(pooln)
             kind, path, body, ent = mutate_request(rng, sess, rec, pooln)
             post_real(ctx, sess, sess.c_mw, 'consumer', kind, path, body, ent)
@@ -1069,7 +1097,7 @@ def http_stream(ctx, sess, L):
     server = types.SimpleNamespace(dispatcher=sess.psrv.dispatcher, supported_encodings=list(L.CH.available_encodings), chunk_size=0,
                                    logger=mock.MagicMock())
     pool = sess.requests
-    for i in range(ctx.n(400, 5000)):
+    for i in range(ctx.n(400, 3500)):
         rec = rng.choice(pool)
         body, path = rec['body'], rec['path']
         k = rng.randrange(14)
@@ -1218,6 +1246,11 @@ def run(ctx):
         parser_oracle(ctx)
     finally:
         pass
+    # core.run_check starts the deeper search only when there is no oracle failure at all; the replayed negative witness
+    # (known finding) is always one, so start it here when the proof / correspondence broke and nothing unknown failed yet
+    unknown = [f for f in ctx.failures if f['signature'] != 'do_post:reply-path-unguarded']
+    if (ctx.disagreements or ctx.proof_problems) and not unknown and ctx.tier != 'thorough':
+        search(ctx)
 
 
 def parser_oracle(ctx):
@@ -1269,7 +1302,9 @@ def _run_case(ctx, L, case):
     elif k == 'inject-do_post':
         classes = {c[0]: c for c in exception_classes()}
         got, _ = run_do_post({s: classes[n] for s, n in case['stages'].items()})
-        if got.startswith('escape') and not any(s in case['stages'] for s in ('mkFaultMsg', 'serFault', 'read2', 'mkReply', 'serReply')):
+        if case.get('witness') and got.startswith('escape'):
+            ctx.fail('do_post:reply-path-unguarded', got, case)
+        elif got.startswith('escape') and not any(s in case['stages'] for s in ('mkFaultMsg', 'serFault', 'read2', 'mkReply', 'serReply')):
             ctx.fail('do_post:exception-escapes', got, case)
     elif k in ('inject-do_POST', 'inject-do_GET'):
         classes = {c[0]: c for c in exception_classes()}
